@@ -25,6 +25,12 @@ AFTER = {
     "C18-r1": "C18.R7 (machine bytes written as characters) was added after this seed; before it the seed was a declared miss",
     "C19-r1": "C19.R3 partial-key sort detection was added after this seed",
     "C19-r2": "C19.R6 (bookkeeping balanced on error paths) was added after this seed; before it only C13.R1 fired, for a wrong reason (corrected)",
+    "C01-r2": "C01.R9 (zero test on the stored result) was added after this seed; before it the seed was missed",
+    "C04-r2": "reported by C11.R7, which was extended to optional components (segment override) and Option::filter after this seed; no rule of C04 sees the assembler side",
+    "C07-r2": "C07.R4 flag frame of CMPS/SCAS (only the six status flags change) was added after this seed; before it the seed was missed",
+    "C08-r2": "C08.R3 was strengthened after this seed from `some path appends ret` to `every path appends ret`",
+    "C18-r2": "C18.R8 (a successful read, end of input included, defines AL / stores the count) was added after this seed",
+    "C20-r2": "first reported by C20.R1/C15.R3 for a wrong reason (`no EOF exit`, although the loop still ends at end of input); R1 was corrected and C20.R2 `blank input terminates` added after this seed",
     "C20-r1": "caught through C17.R3 (the print range rule), which was extended after this seed; no rule of C20 decides it",
 }
 # alarms of other properties' checks on this seed, judged one by one
@@ -35,6 +41,8 @@ CROSS = {
     ("C13-r2", "C16"): "genuine: the diagnostic of a rejected macro use is attributed to another position, which C16's position clause covers",
     ("C16-r2", "C13"): "genuine: same defect seen from C13's `rejected with a diagnostic at the use site`",
     ("C15-r1", "C12"): "genuine: the loader's high-byte store no longer goes to (a+1) mod 2^20",
+    ("C04-r2", "C11"): "genuine: the assembler drops a component of the source operand (`ds` override), which C11's `operands are preserved` clause covers; through it `ds[bp]` is addressed through SS (C04)",
+    ("C12-r2", "C15"): "genuine: the 16-bit product 2*n aborts the assembler for n >= 32768 (C15: no input text aborts)",
     ("C20-r1", "C17"): "genuine: a print range that leaves the 1 MB space is no longer reported (C17's last clause)",
 }
 
